@@ -1,6 +1,7 @@
 /* C11 direct oracle: the property as stated, evaluated on the real library.
  *
  * usage: c11_agree run <seed> <nmut> <maxsize> <scratchdir> <bystander-module> <file>...
+ *        c11_agree cases <scratchdir> <bystander-module> <listfile>     (lines: <variant> TAB <path>)
  *        c11_agree replay <scratchdir> <bystander-module> <file> <variant>
  *
  * For every file: the original bytes and <nmut> mutated variants (truncations, bit flips, both)
@@ -477,9 +478,62 @@ static void on_alarm(int sig)
 	_exit(97);
 }
 
+/* one file in a forked child: the original and nmut mutants, or exactly the variant `fixed` */
+static void run_file(const char *path, uint64_t seed, int nmut, long maxsize, const char *fixed)
+{
+	pid_t pid;
+	int status, v;
+
+	printf("F %s\n", path);
+	fflush(stdout);
+	fprintf(stderr, "@@F %s\n", path);
+	fflush(stderr);
+	pid = fork();
+	if (pid < 0)
+		exit(4);
+	if (pid == 0) {
+		long osize, vsize;
+		unsigned char *orig = read_file(path, &osize), *d;
+		char spec[256];
+		int n = nmut;
+		signal(SIGALRM, on_alarm);
+		alarm(300);
+		if (orig == NULL || osize <= 0)
+			_exit(0);
+		if (fixed != NULL) {
+			d = apply_variant(orig, osize, fixed, &vsize);
+			run_variant(fixed, d, vsize, 0);
+			fflush(stdout);
+			_exit(0);
+		}
+		if (osize > maxsize)
+			n = nmut / 4;
+		vrng_seed(seed ^ fnv1a(FNV_INIT, path, strlen(path)));
+		run_variant("o", orig, osize, 0);
+		for (v = 0; v < n; v++) {
+			gen_variant(spec, sizeof(spec), osize);
+			d = apply_variant(orig, osize, spec, &vsize);
+			run_variant(spec, d, vsize, 0);
+			free(d);
+		}
+		fflush(stdout);
+		_exit(0);
+	}
+	if (waitpid(pid, &status, 0) < 0)
+		exit(4);
+	if (WIFSIGNALED(status))
+		printf("X signal %d\n", WTERMSIG(status));
+	else if (WIFEXITED(status) && WEXITSTATUS(status) == 97)
+		printf("X timeout 0\n");
+	else if (WIFEXITED(status) && WEXITSTATUS(status) != 0)
+		printf("X exit %d\n", WEXITSTATUS(status));
+	printf("E %s\n", path);
+	fflush(stdout);
+}
+
 int main(int argc, char **argv)
 {
-	int i, v;
+	int i;
 
 	if (argc >= 6 && strcmp(argv[1], "replay") == 0) {
 		long osize, vsize;
@@ -495,6 +549,26 @@ int main(int argc, char **argv)
 		printf("E %s\n", argv[4]);
 		return 0;
 	}
+	if (argc >= 5 && strcmp(argv[1], "cases") == 0) {
+		/* c11_agree cases <scratch> <bystander> <listfile> ; list lines: <variant> TAB <path> */
+		FILE *lf = fopen(argv[4], "r");
+		char line[4096];
+		if (lf == NULL)
+			return 4;
+		scratch = argv[2];
+		setup_bystander(argv[3]);
+		while (fgets(line, sizeof(line), lf) != NULL) {
+			char *tab = strchr(line, '\t'), *nl = strchr(line, '\n');
+			if (nl)
+				*nl = 0;
+			if (tab == NULL)
+				continue;
+			*tab = 0;
+			run_file(tab + 1, 0, 0, 0, line);
+		}
+		fclose(lf);
+		return 0;
+	}
 	if (argc < 8 || strcmp(argv[1], "run") != 0) {
 		fprintf(stderr, "usage: c11_agree run <seed> <nmut> <maxsize> <scratch> <bystander> <file>...\n");
 		return 2;
@@ -505,49 +579,8 @@ int main(int argc, char **argv)
 		long maxsize = atol(argv[4]);
 		scratch = argv[5];
 		setup_bystander(argv[6]);
-		for (i = 7; i < argc; i++) {
-			pid_t pid;
-			int status;
-			printf("F %s\n", argv[i]);
-			fflush(stdout);
-			fprintf(stderr, "@@F %s\n", argv[i]);
-			fflush(stderr);
-			pid = fork();
-			if (pid < 0)
-				return 4;
-			if (pid == 0) {
-				long osize, vsize;
-				unsigned char *orig = read_file(argv[i], &osize), *d;
-				char spec[256];
-				int n = nmut;
-				signal(SIGALRM, on_alarm);
-				alarm(300);
-				if (orig == NULL || osize <= 0)
-					_exit(0);
-				if (osize > maxsize)
-					n = nmut / 4;
-				vrng_seed(seed ^ fnv1a(FNV_INIT, argv[i], strlen(argv[i])));
-				run_variant("o", orig, osize, 0);
-				for (v = 0; v < n; v++) {
-					gen_variant(spec, sizeof(spec), osize);
-					d = apply_variant(orig, osize, spec, &vsize);
-					run_variant(spec, d, vsize, 0);
-					free(d);
-				}
-				fflush(stdout);
-				_exit(0);
-			}
-			if (waitpid(pid, &status, 0) < 0)
-				return 4;
-			if (WIFSIGNALED(status))
-				printf("X signal %d\n", WTERMSIG(status));
-			else if (WIFEXITED(status) && WEXITSTATUS(status) == 97)
-				printf("X timeout 0\n");
-			else if (WIFEXITED(status) && WEXITSTATUS(status) != 0)
-				printf("X exit %d\n", WEXITSTATUS(status));
-			printf("E %s\n", argv[i]);
-			fflush(stdout);
-		}
+		for (i = 7; i < argc; i++)
+			run_file(argv[i], seed, nmut, maxsize, NULL);
 	}
 	return 0;
 }
